@@ -36,8 +36,8 @@ COMMON_ASSUME = [
     "pinned dependencies (go-cptv, lepton3, go-config, window, juju/ratelimit, yaml) behave as in the module cache",
 ]
 
-FSM_RULE = ("Real MotionProcessor fed by a scripted parser; cases: (1) ~330 configs (fps 1-3, preview 0-2, trigger 0-3, 0<=min<=max<=3) x all motion bit-strings of length 11 (thorough 14); "
-            "(2) same configs x all strings of length 7 (thorough 9) x one disturbance {window closed, disk check fails, file creation fails, bad frame, reset} at every position; "
+FSM_RULE = ("Real MotionProcessor fed by a scripted parser; cases: (1) ~330 configs (fps 1-3, preview 0-2, trigger 0-3, 0<=min<=max<=3) x all motion bit-strings of length 11 (thorough 16); "
+            "(2) same configs x all strings of length 7 (thorough 10) x one disturbance {window closed, disk check fails, file creation fails, bad frame, reset} at every position; "
             "(3) seeded random scripts (50-2000 events, fps<=9, preview<=5, max<=12s, realistic 3/20 and 10/600 settings) with bad frames, resets and refusals; (4) trigger-position sweep for cap 1..24.")
 FSM_ASSUME = COMMON_ASSUME + ["the driver aims at motion with a toggling hot pixel, but oracles take the observed MotionDetected callbacks as input"]
 FSM_JOB = {"pkg": "motion", "test": "TestVerif_FSM", "shards": (16, 16), "timeout": (300, 2400), "require": ["recordings", "motion_frames_observed"]}
@@ -54,7 +54,7 @@ PROPS = {
         "rule": FSM_RULE + " Oracle C01: inside every motion-sink recording accepted indices are consecutive, no frame appears in two recordings, recordings do not overlap, "
                 "and a re-trigger within pre-trigger reach starts exactly at previous-last+1. Non-trivial = at least one recording; distinct by (config, sink-trace hash).",
         "assumptions": FSM_ASSUME,
-        "level_text": "Offline trace checker over the real MotionProcessor's calls on a monitor sink, for all motion bit-strings up to length 11 (thorough 14) on ~330 small configurations, every single-disturbance placement (refused start, bad frame, reset) on shorter strings, a trigger-position sweep for ring capacities 1..24 and long random scripts. Exhaustive small scope + sampling; nothing is proved.",
+        "level_text": "Offline trace checker over the real MotionProcessor's calls on a monitor sink, for all motion bit-strings up to length 11 (thorough 16) on ~330 small configurations, every single-disturbance placement (refused start, bad frame, reset) on shorter strings, a trigger-position sweep for ring capacities 1..24 and long random scripts. Exhaustive small scope + sampling; nothing is proved.",
         "level_note": "Frame identity is carried in Status.FrameCount by the harness parser; write/stop faults are excluded here by the property's quantifier (C12 covers them).",
         "technique": "offline trace checker on monitor sinks (exhaustive small scope + random scripts)",
         "jobs": [dict(FSM_JOB)],
@@ -196,7 +196,7 @@ PROPS = {
     "C12": {
         "title": "Sinks see writes only inside start..stop; faults never crash the pipeline",
         "level": "fault_enumeration",
-        "rule": "Real MotionProcessor with monitor sinks on all three recorder interfaces. Part 1 (fault enumeration): every event sequence of length 1..5 (thorough 7) over {motion frame, frame, bad frame, reset, test-recording request} x 18 small configs "
+        "rule": "Real MotionProcessor with monitor sinks on all three recorder interfaces. Part 1 (fault enumeration): every event sequence of length 1..5 (thorough 7, and 8 on the nine configurations with the continuous recorder on) over {motion frame, frame, bad frame, reset, test-recording request} x 18 small configs "
                 "(max-secs*fps 0..2, trigger-frames 0..2, continuous recorder on/off) x the fault-free run and EVERY single-fault placement (each Start/Write/Stop/CheckCanRecord call of each sink made inside the script fails once). "
                 "Part 2: random scripts (8..400 events) with 1-30% per-call fault rate. Each run is followed by a fault-free recovery suffix. Oracle: per-sink protocol automaton, recovered panics, "
                 "and bounded progress (the suffix's motion burst must start exactly one recording at the expected frame that satisfies the C01-C03 oracles). Distinct by (config, full sink trace).",
@@ -309,7 +309,7 @@ PROPS = {
         "title": "Frame ring buffer returns exactly the retained history, oldest first",
         "level": "exploration",
         "exhaustive_possible": False,
-        "rule": "part 1: BFS over every (product state, operation) pair of real FrameLoop x RefRing for capacities 1..8 under {stamp+Move, SetAsOldest, Reset} "
+        "rule": "part 1: BFS over every (product state, operation) pair of real FrameLoop x RefRing for capacities 1..8 (thorough 1..12) under {stamp+Move, SetAsOldest, Reset} "
                 "(each transition is a case; distinct = distinct (state, op) pairs); part 1b: from every reachable state of capacities 1..6: observe, then 1..3N+1 unobserved moves (optionally ending in a mark), observe again "
                 "(observations reuse internal buffers, so the monitor must also look sparsely); part 2: seeded random operation sequences, capacity 1..64, observed after every op / sparsely / whole laps apart; "
                 "after every operation GetHistory/Oldest/CopyRecent/Current are compared with the model; non-trivial = every transition / every completed random sequence",
